@@ -291,6 +291,10 @@ def work(item):
             ok, outtxt = replay.run_script(path)
             res["replay"], res["replay_out"] = path, outtxt[-1200:]
             res["status"] = "violation" if ok else "not-reproduced"
+            if not ok and "NOT-REPRODUCED (exception)" in outtxt:
+                # the symbolic store model has no dtypes: numpy refused this write (e.g. a float result cannot be cast
+                # into an integer out= array), so nothing was modified
+                res["status"] = "write-rejected-by-numpy"
             res["arg"] = i
             return res
     return res
@@ -308,7 +312,20 @@ def main():
     rng = random.Random(seed)
     items = []
     for fam, n in FAMS.items():
-        for c in family.generate(fam, n * mult, seed + 9, tier):
+        cases_f = family.generate(fam, n * mult, seed + 9, tier)
+        if fam == "elementwise":
+            # calls with one operand too many (its expression is the output's): whatever einx does with such a call,
+            # it must not write into an argument
+            from vlib.desc import show_expr
+
+            extra = []
+            for c in cases_f:
+                lo, hi = family.ELEMENTWISE_ARITY[c["op"]]
+                if lo == hi == len(c["ins"]) and len(c["outs"]) == 1:
+                    ins2 = list(c["ins"]) + [c["outs"][0]]
+                    extra.append(dict(c, ins=tuple(ins2), kinds=list(c["kinds"]) + ["int"], desc=", ".join(show_expr(e) for e in ins2) + " -> " + show_expr(c["outs"][0]), form="explicit", tags=sorted(set(c["tags"]) | {"operand-added"})))
+            cases_f = cases_f + extra
+        for c in cases_f:
             k = len(c["ins"])
             # every layout on every argument at least once (one argument varied at a time), plus a mixed one
             combos = [["C"] * k]
